@@ -240,6 +240,12 @@ def obligations(tier, seed):
         obs.append({"name": "drop_point/" + tag, "fn": "ob_drop_point", "P": p, "timeout": T})
         for lo in range(0, size + 1, 6):
             obs.append({"name": "lift/%s/%d" % (tag, lo), "fn": "ob_lift", "P": dict(p, alo=lo, ahi=lo + 6), "timeout": T})
+        if False:
+            pass
         for lo in range(0, size + 1, 3):
             obs.append({"name": "wrap/%s/%d" % (tag, lo), "fn": "ob_wrap", "P": dict(p, alo=lo, ahi=lo + 3), "timeout": T})
+    p = {"schema": "list", "doc": 15}              # a list item with three paragraphs followed by a nested list
+    size = common.templates.doc("list", 15).content.size
+    for lo in range(0, size + 1, 4):
+        obs.append({"name": "lift/list#15/%d" % lo, "fn": "ob_lift", "P": dict(p, alo=lo, ahi=lo + 4), "timeout": T})
     return obs
